@@ -129,6 +129,15 @@ CHECKS["C09"] = {
     "technique": TECH + "def-guard-use pattern on the norm divisor, sibling start-up agreement (only the degenerate-start clause; convergence is not applicable)",
 }
 
+CHECKS["C18"] = {
+    "text": "For every m and n (including m < n and m > n), real and complex: the Jacobian is allocated m x n in that order; column i is stored for i over the full 0..n; "
+            "the callee's range check bounds the column index by cols (the set_col defect made n > m panic); each iteration perturbs coordinate i by delta, evaluates, and "
+            "restores the same coordinate by the same delta; the stored column is (f_new - f)/delta with f evaluated once at the unperturbed point; both siblings satisfy the same instances.",
+    "design_ref": "DESIGN.md §3 C18",
+    "note": "Exactness for affine maps on dyadic data and O(delta) accuracy are numerical and not decided statically.",
+    "technique": TECH + "shape ties, perturb/restore pairing, quotient polarity, callee kind signature (index kinds)",
+}
+
 NOT_APPLICABLE = {
 }
 for _i in range(1, 21):
